@@ -405,7 +405,11 @@ func c15Oracle(x *vs.Exec, tp c15Tmpl, r *c15Run) {
 			return
 		}
 		// contiguous afterwards (no gap from the retained event on)
+		// (binds only reads made before Close started: from then on Close's own drain goroutine takes events too)
 		for i := 1; i < len(r.reads); i++ {
+			if r.closeStart != 0 && r.reads[i].at > r.closeStart {
+				break
+			}
 			if r.reads[i].e == first.e && r.reads[i].n != r.reads[i-1].n+1 && r.reads[i-1].e == first.e {
 				x.Fail("event-lost", "gap after retained event: reads %v", r.reads)
 				return
